@@ -37,17 +37,20 @@ func vh_C04_L1_client_server() {
 	a.initClient()
 	b.initServer()
 	vassert(a.getState() == cookieWait && a.t1Init.isRunning(), "client sent INIT and started T1-init")
-	fault := vPick(3) // 0 none, 1 one loss, 2 every packet delivered twice
-	dropAt := -1
+	fault := vPick(3) // 0 none, 1 one loss (thorough: two losses), 2 every packet delivered twice
+	dropAt, dropAt2 := -1, -1
 	if fault == 1 {
 		dropAt = vPick(4)
+		if vtier() > 0 {
+			dropAt2 = dropAt + vPick(4) // a second loss (or the same packet again: one loss)
+		}
 	}
 	idx := 0
 	wire := func(x, y *Association) int {
 		n := 0
 		for _, raw := range vWriterWake(x) {
 			vassert(vDecode(raw) != nil, "handshake packet decodes")
-			if idx != dropAt {
+			if idx != dropAt && idx != dropAt2 {
 				vInbound(y, raw)
 				if fault == 2 {
 					vInbound(y, raw)
@@ -58,7 +61,7 @@ func vh_C04_L1_client_server() {
 		}
 		return n
 	}
-	for round := 0; round < 8; round++ {
+	for round := 0; round < 12; round++ {
 		n := wire(a, b) + wire(b, a)
 		if n == 0 {
 			if a.getState() == established && b.getState() == established {
